@@ -134,6 +134,20 @@ func c12Forced(c *Ctx, F *model.Fields, fn *ssa.Function, elem, key, constVal st
 	}
 	track = append(track, guards...)
 	nonEmpty := pa.Not(orAtoms(guards))
+	// returns that do not come after the block (early exits) must be returns of a list known to be empty
+	emptyRet := map[*ssa.Return][]int{}
+	for _, b := range fn.Blocks {
+		ret, ok := b.Instrs[len(b.Instrs)-1].(*ssa.Return)
+		if !ok || len(ret.Results) != 1 {
+			continue
+		}
+		for ai, at := range A.Atoms {
+			if at.Kind == "len0" && at.Resolve(at.X) == ret.Results[0] {
+				emptyRet[ret] = append(emptyRet[ret], ai)
+				track = append(track, ai)
+			}
+		}
+	}
 	A.PhiFilter = func(ph *ssa.Phi) bool { return loop.Blocks[ph.Block()] || loop.Header.Dominates(ph.Block()) }
 	q, err := A.NewQuery(track)
 	if err != nil {
@@ -225,19 +239,23 @@ func c12Forced(c *Ctx, F *model.Fields, fn *ssa.Function, elem, key, constVal st
 	n := 0
 	for _, b := range fn.Blocks {
 		ret, ok := b.Instrs[len(b.Instrs)-1].(*ssa.Return)
-		if !ok || !loopReachableBefore(loop, b) {
+		if !ok {
 			continue
 		}
 		st := q.StateAt(ret)
 		if st == nil {
 			continue
 		}
-		// only returns that come after the loop's position (the loop's guard dominates nothing else)
-		if !reaches(loop.Exit, b) {
-			continue
-		}
 		n++
-		ok1, cex := q.Holds(st, pa.Implies(pa.And(flag, nonEmpty), pa.AtomF(evHave)))
+		ne := nonEmpty
+		if !reaches(loop.Exit, b) {
+			// an exit before the block: allowed only with a list known to be empty
+			ne = pa.True
+			if len(emptyRet[ret]) > 0 {
+				ne = pa.Not(orAtoms(emptyRet[ret]))
+			}
+		}
+		ok1, cex := q.Holds(st, pa.Implies(pa.And(flag, ne), pa.AtomF(evHave)))
 		R.Check(ok1, "C12.R1", fmt.Sprintf("%s:return#%d", okey, n), cons, c.P.Pos(ret.Pos()), "present whenever the option is on", "the function can return a non-empty attribute list for <"+elem+"> without the forced "+key+" attribute although the option is on: ["+cex+"]")
 	}
 	R.Role("C12.R1", "returns after the "+key+" block for "+elem, n, 1)
